@@ -146,6 +146,9 @@ def source_links():
 
 
 PAGE_FILES = {
+    "src/api.f90": "module api\n  !! doc\n  use impl_real\n  use impl_cplx\n  implicit none\n  interface add\n    !! generic over two files\n    module procedure add_real, add_cplx\n  end interface add\nend module api\n",
+    "src/impl_real.f90": "module impl_real\ncontains\n  function add_real(a, b) result(r)\n    real, intent(in) :: a, b\n    real :: r\n    r = a + b\n  end function add_real\nend module impl_real\n",
+    "src/impl_cplx.f90": "module impl_cplx\ncontains\n  function add_cplx(a, b) result(r)\n    complex, intent(in) :: a, b\n    complex :: r\n    r = a + b\n  end function add_cplx\nend module impl_cplx\n",
     "src/kernels.f90": "module kernels_free\n  !! in kernels.f90\n  integer :: kf\nend module kernels_free\n",
     "src/kernels.f": "      module kernels_fixed\n      integer :: kx\n      end module kernels_fixed\n",
     "src/sub/kernels.f90": "module kernels_sub\n  !! in sub/kernels.f90\n  integer :: ks\nend module kernels_sub\n",
@@ -187,6 +190,14 @@ def page_files():
                     dup = [i for i, k in collections.Counter(ids).items() if k > 2]
                     if dup:
                         bad.append(f"{os.path.relpath(os.path.join(d, f), out)}: id {dup[0]!r} occurs {collections.Counter(ids)[dup[0]]} times")
+        # on the page of a generic interface every specific procedure is shown once: there each id stands for one item
+        for gpage in ("add.html", "solve.html"):
+            gp = os.path.join(out, "interface", gpage)
+            if os.path.exists(gp):
+                gids = re.findall(r'\bid="((?:proc|variable)-[^"]*)"', open(gp, encoding="utf-8").read())
+                dup = sorted(i for i, k in collections.Counter(gids).items() if k > 1)
+                if dup:
+                    bad.append(f"interface/{gpage}: ids {dup[:4]} occur more than once (the dummy arguments of different specific procedures share an anchor)")
         page = os.path.join(out, "interface", "solve.html")
         if os.path.exists(page):
             ids = set(re.findall(r'\bid="(proc-[^"]*)"', open(page, encoding="utf-8").read()))
